@@ -58,7 +58,7 @@ def regex_pred(ex, pattern, insensitive, hay):
         r = hook(pattern, insensitive, hay)
         if r is not None:
             return r
-    hkey = hay if isinstance(hay, bytes) else id(hay)
+    hkey = S.skey(hay)
     key = ('re', pattern, insensitive, hkey)
     r = ex.uni.memo.get(key)
     if r is None and getattr(ex.uni, 'interpret_regex', True):
